@@ -1,19 +1,113 @@
-import Juniper.Model.Merge
-import Juniper.Model.StreamMerge
+import Juniper.Proofs.MergeChans
+import Juniper.Proofs.Replicate
 /-!
-# C12 — Merge / Replicate (property theorems)
+# C12 — Merge / Replicate move every value exactly once and finish when their inputs do
+
+Property theorems (and their non-vacuity examples) about the LTS models of `Model/Merge.lean` and
+`Model/StreamMerge.lean`, whose arm tables, guards, deferred calls and presence facts are the
+generated `Juniper.Gen.Merge`. Helper lemmas: `Proofs/MergeChans.lean`, `Proofs/Replicate.lean`,
+`Proofs/StreamMerge*.lean`. `Reach (init V n) s` ranges over every interleaving of the producers'
+sends and closes, the consumer's receives and the steps of the merging goroutine(s).
 -/
 namespace Juniper.Props.C12
 open Juniper.Model
+open Juniper.Model.Merge (HasNil)
+
+section chans
+variable {V : Type} [HasNil V]
+open Juniper.Model.Merge Juniper.Proofs.MergeChans
 
 /-- Arity dispatch of `chans.Merge`: one input takes the range loop, two `merge2`, three `merge3`,
 everything else (zero included) the `reflect.Select` loop. -/
 theorem merge_dispatch (n : Nat) :
-    Merge.pathOf n = (if n = 1 then .range else if n = 2 then .m2 else if n = 3 then .m3 else .reflect) := by
-  unfold Merge.pathOf Gen.Merge.dispatch1 Gen.Merge.dispatch2 Gen.Merge.dispatch3
-  have e1 : ((n:Int) = 1) ↔ n = 1 := by omega
-  have e2 : ((n:Int) = 2) ↔ n = 2 := by omega
-  have e3 : ((n:Int) = 3) ↔ n = 3 := by omega
-  simp only [e1, e2, e3, decide_eq_true_eq]
+    pathOf n = (if n = 1 then .range else if n = 2 then .m2 else if n = 3 then .m3 else .reflect) :=
+  pathOf_eq n
+
+/-- **chans.Merge outputs an interleaving of its inputs** — for every arity `n` (hence each of the
+four code paths), every element type, every reachable state: for every input `i`, what `out` has
+delivered from `i`, followed by the value Merge holds for `i` (blocked in `out <- item`), followed by
+what is still receivable on `i`, is exactly what was ever offered on `i`. So `out` restricted to
+input `i` is a prefix of input `i` (per-input order, nothing invented or duplicated), every
+delivered value comes from one of the `n` inputs, and Merge never panics (nil values included). -/
+theorem merge_interleaving (n : Nat) (s : St V) (h : Reach (init V n) s) :
+    (∀ i c, s.ins[i]? = some c → proj i s.out ++ held i s.pc ++ c.avail = c.sent) ∧
+    (∀ p, p ∈ s.out → p.1 < n) ∧ s.pc ≠ .panicked :=
+  let hi := reach_inv h
+  ⟨hi.conserve, hi.tags, hi.noPanic⟩
+
+example : ∃ s : St (Option Int), Reach (init (Option Int) 4) s ∧ s.out = [(2, none), (0, some 5)] ∧
+    s.pc = .hold 2 (some 9) :=
+  ⟨_, reach_of_run [.envSend 2 none, .envSend 0 (some 5), .recv 2, .deliver, .recv 0, .envSend 2 (some 9), .deliver,
+    .recv 2] .refl rfl, by decide⟩
+
+/-- **chans.Merge returns exactly when all inputs are closed and everything was delivered** — for
+every arity. (1) Not earlier: whenever it has returned, every input is closed and drained and `out`
+restricted to each input equals that input (same multiset, per-input order). (2) Not later: once
+every input is closed and everything offered was delivered, Merge has returned or one of its own
+steps is enabled, each such step keeps that situation and strictly decreases the measure `mu`, so
+(3) some run of Merge-internal steps — needing neither producer nor consumer — ends in `done`. -/
+theorem merge_returns_iff_all_closed_and_delivered (n : Nat) (s : St V) (h : Reach (init V n) s) :
+    (s.pc = .done → ∀ i, i < n → ∃ c, s.ins[i]? = some c ∧ c.closed = true ∧ c.avail = [] ∧
+        proj i s.out = c.sent) ∧
+    (AllDone s → s.pc ≠ .done →
+        (∃ l, l ∈ internalLabels s ∧ ∃ s', step s l = some s') ∧
+        (∀ l, l ∈ internalLabels s → ∀ s', step s l = some s' → AllDone s' ∧ mu s' < mu s)) ∧
+    (AllDone s → ∃ ls s', run s ls = some s' ∧ InternalRun s ls ∧ s'.pc = .done) := by
+  have hi := reach_inv h
+  refine ⟨?_, fun ha hnd => progress hi ha hnd, fun ha => eventually_done (mu s) s hi ha (Nat.le_refl _)⟩
+  intro hd i hin
+  have hl := hi.doneLive hd
+  obtain ⟨c, hc, hcl, hav⟩ := hi.dead i hin (by rw [hl]; simp)
+  have := hi.conserve i c hc
+  rw [hd, hav] at this
+  exact ⟨c, hc, hcl, hav, by simpa [held] using this⟩
+
+/-- zero inputs: `chans.Merge(out)` returns at once -/
+example : ∃ s : St (Option Int), run (init (Option Int) 0) [.exit] = some s ∧ s.pc = .done := ⟨_, rfl, by decide⟩
+/-- one / two / three / four inputs: a full run through the respective code path ends in `done` -/
+example : ∃ s : St (Option Int), run (init (Option Int) 1) [.envSend 0 (some 1), .recv 0, .envClose 0, .deliver, .recv 0] = some s ∧
+    s.pc = .done ∧ s.out = [(0, some 1)] := ⟨_, rfl, by decide⟩
+example : ∃ s : St (Option Int), run (init (Option Int) 2) [.envSend 1 (some 1), .envClose 0, .recv 0, .recv 1, .deliver, .envClose 1, .recv 1] = some s ∧
+    s.pc = .done ∧ s.out = [(1, some 1)] := ⟨_, rfl, by decide⟩
+example : ∃ s : St (Option Int), run (init (Option Int) 3) [.envClose 2, .envClose 0, .recv 0, .envClose 1, .recv 2, .recv 1] = some s ∧
+    s.pc = .done := ⟨_, rfl, by decide⟩
+example : ∃ s : St (Option Int), run (init (Option Int) 4) [.envClose 2, .envClose 0, .recv 0, .envSend 3 none, .recv 3, .deliver, .envClose 1,
+    .recv 2, .recv 1, .envClose 3, .recv 3, .exit] = some s ∧ s.pc = .done ∧ s.out = [(3, none)] := ⟨_, rfl, by decide⟩
+
+end chans
+
+section replicate
+variable {V : Type}
+open Juniper.Model.Merge Juniper.Proofs.Replicate
+
+/-- **chans.Replicate delivers the whole source in order to every destination** — for every number
+of destinations `m` and every reachable state: what destination `j` has received, followed by the
+value it is still owed of the item being fanned out, followed by what is still receivable on `src`,
+is exactly what was ever offered on `src`; so each destination holds a prefix of the source, in
+order. Replicate has returned only if `src` is closed and drained (then every destination holds the
+whole source), and once `src` is closed and drained and every destination has everything, its next
+own step returns. -/
+theorem replicate_all_in_order (m : Nat) (s : RSt V) (h : RReach (rinit V m) s) :
+    (∀ j o, s.outs[j]? = some o → o ++ rOwed j s.pc ++ s.src.avail = s.src.sent) ∧
+    s.outs.length = m ∧
+    (s.pc = .done → s.src.closed = true ∧ s.src.avail = [] ∧
+      ∀ (j : Nat) (o : List V), s.outs[j]? = some o → o = s.src.sent) ∧
+    (RAllDone s → s.pc ≠ .done → ∃ s', rstep s .recv = some s' ∧ s'.pc = .done) := by
+  have hi := rreach_inv h
+  refine ⟨hi.conserve, hi.len, ?_, fun ha hnd => rprogress hi ha hnd⟩
+  intro hd
+  obtain ⟨hcl, hav⟩ := hi.done hd
+  refine ⟨hcl, hav, ?_⟩
+  intro j o ho
+  have := hi.conserve j o ho
+  rw [hd, hav] at this
+  simpa [rOwed] using this
+
+example : ∃ s : RSt (Option Int), RReach (rinit (Option Int) 2) s ∧ s.pc = .done ∧
+    s.outs = [[some 7, none], [some 7, none]] :=
+  ⟨_, rreach_of_run [.envSend (some 7), .recv, .envSend none, .deliver, .deliver, .envClose, .recv, .deliver, .deliver,
+    .recv] .refl rfl, by decide⟩
+
+end replicate
 
 end Juniper.Props.C12
